@@ -1,7 +1,12 @@
+#![allow(dead_code, unused_variables, unused_imports, clippy::all)]
 //! `lv` - verification harness for lalrpop/lalrpop (property-based testing and fuzzing).
 //! See /verif/DESIGN.md.
 
+mod batch;
 mod core;
+mod gen;
+mod gspec;
+mod model;
 mod props;
 mod run;
 mod tape;
